@@ -11,7 +11,7 @@ HOOK_COMMITS = subprocess.run(
 
 P = {
  "C01": dict(cat="exploration", technique="runtime monitoring: whole-cluster fault-injection runs in virtual time + LWW reference-model oracle over recorded storage writes",
-   text="Real N-node clusters (public handle API, real distributor, poller, membership watcher, clocks) run on a paused-time runtime over the in-memory transport with a seeded per-message fault policy (drop, duplicate, lost reply, hold/reorder); after a final pairwise repair round (premise established from repair_from's outcome) every node's reads are compared with each other and with a last-writer-wins model built from the recorded storage writes. Sampled schedules, not all.",
+   text="Real N-node clusters (public handle API, real distributor, poller, membership watcher, clocks) run on a paused-time runtime over the in-memory transport with a seeded per-message fault policy (drop, duplicate, lost reply, hold/reorder), node restarts on the same storage and, in a third of the scenarios, sparse knowledge (each write reaches one replica only). Quiescence is reached twice: by the system's own background repair (poller) where the scenario allows it, and by a final pairwise repair round (premise established from repair_from's outcome); then every node's reads are compared with each other and with a last-writer-wins model built from the recorded storage writes. Sampled schedules, not all.",
    note="hooks H1 H2 H3 H4 H5; MemStore/SQLite backends; stamps within one forgiveness period by construction and re-checked", ref="§5 C01"),
  "C02": dict(cat="fault_enumeration", technique="runtime monitoring: set/store agreement probe after every keyspace request under injected storage failures",
    text="Real keyspace actors and ConsistencyService driven with generated request sequences (arbitrary stamps, origins, sources, duplicates, purges) over a FaultyStore that fails single calls and bulk calls after j of n documents; after EVERY completed request the serialized set is compared with iter_metadata.",
@@ -26,11 +26,11 @@ P = {
    text="Real diff() compared as sets with a reference computed from observations only; returned lists applied the way the actor applies a repair batch in both batch orders, then diff must be empty; mutual repair gives equal lookups.",
    note="second sentence checked through the read-repair source of a two-source set (how the system applies it); single-source only inside one window", ref="§5 C05"),
  "C06": dict(cat="fault_enumeration", technique="runtime monitoring: per-call storage inspection on real clusters with every subset of selected replicas failing",
-   text="Real clusters (layouts up to 3 DCs x 3 nodes) in virtual time: for each call, consistency level, operation kind and failing replica subset the issuer's and peers' storage is inspected at the moment the call returns; Err carries the acknowledgement count the harness let through; bounded-progress restatement of 'replicated later'.",
+   text="Real clusters of every layout up to 3 DCs x 3 nodes (39 layouts) in virtual time, including clusters that grow while calls are issued: for each call, consistency level, operation kind and failing replica subset the issuer's and peers' storage is inspected at the moment the call returns; Err carries the acknowledgement count the harness let through; bounded-progress restatement of 'replicated later' (one explicit repair round after faults stop).",
    note="hooks H1-H4; acknowledgement = request delivered, remote storage succeeded, reply not dropped", ref="§5 C06"),
  "C07": dict(cat="fault_enumeration", technique="runtime monitoring: crash-point enumeration (after and inside requests) with restart on the same storage and set==store oracle",
-   text="Request histories against real keyspace actors; a crash point after every request and inside requests (storage write done, in-memory update not); a fresh group loaded from the same storage must serialize exactly what iter_metadata holds, and every mutation visible before the stop is present or superseded.",
-   note="crash = clean task drop; durability of the backends under power loss is out of scope", ref="§5 C07"),
+   text="Request histories (single and bulk, bulk entries sharing one stamp, extreme ids, 16-id universes) against real keyspace actors; a crash point after every request and inside requests (storage write done, in-memory update not); a fresh group loaded from the same storage must serialize exactly what iter_metadata holds, and every mutation visible before the stop is present or superseded by an acknowledged delete. MemStore in process; SQLite files reopened; LMDB with a real process exit between the two phases.",
+   note='crash = task drop (MemStore/SQLite) or process exit (LMDB); durability of the backends under power loss is out of scope', ref="§5 C07"),
  "C08": dict(cat="exploration", technique="runtime monitoring: purge invariants on reachable sets + hour-scale cluster histories against a never-purging LWW model",
    text="Local: at every purge of generated hour-scale histories lookups/live listing unchanged, only reported tombstones vanish, afterwards every operation of the deleting origin not newer than the purged delete is refused. Cluster: timely histories over virtual hours with the real purge task and explicit purges, final state == LWW model.",
    note="timeliness (delay + skew < forgiveness) by construction and re-checked", ref="§5 C08"),
@@ -47,25 +47,25 @@ P = {
    text="Round trips of generated message families over real loopback HTTP/2; for each valid frame every single-bit flip, truncation and extension goes to DataView::using and as a raw POST to a live server; must-refuse decided by an independent CRC-32 and archived-size oracle; Miri (bounds/alignment) on the view path, debug and release builds.",
    note="hook H2 for bulk; real TCP for samples", ref="§5 C12"),
  "C13": dict(cat="exploration", technique="runtime monitoring: registry reference model, all add/remove histories to length 5 executed",
-   text="All histories of add/remove over four services sharing message types up to length 5, after every step every (service,message) pair is called and compared with the set-of-registered-names model; sample on real TCP.",
+   text="All histories of add/remove up to length 5 over two universes of services (four plain services sharing message types; generic services Gen<Alpha>/Gen<Beta> whose names differ only by type parameter); after every step every (service,message) pair is called and compared with the set-of-registered-names model; sample on real TCP.",
    note="hook H2 (same ServerState code as TCP)", ref="§5 C13"),
  "C14": dict(cat="fault_enumeration", technique="runtime monitoring: turmoil network-fault simulations with exactly-once / no-swap / timeout-bound history checker",
-   text="Seeded turmoil simulations (partition, hold, release, repair at generated instants; sequential and concurrent requests, handler latency, client timeouts) with a per-request history: reply matches request, handler ran at most once, errors only connection/timeout, completion within the timeout.",
+   text="Seeded turmoil simulations (partition, hold, release, repair at generated instants; sequential and concurrent requests, handler latency, client timeouts, clients that are clones of one configured client) with a per-request history: reply matches request, handler ran at most once, errors only connection/timeout, completion within the timeout. Complement on real loopback TCP: many concurrent requests multiplexed over one channel, replies matched to requests.",
    note="datacake-rpc's own `simulation` feature; bodies <= 100 B because of a turmoil 0.4.0 defect", ref="§5 C14"),
  "C15": dict(cat="exploration", technique="runtime monitoring: selection oracle over all layouts <= 4x4, positions, levels and prior-selection histories (executed exhaustively)",
    text="Every layout of 1-4 DCs x 1-4 nodes, every local position, level and history of <=2 prior selections through the public NodeSelector trait, plus membership-update sequences through the real selector actor; result must be distinct live non-local peers of the required count, NotEnoughNodes only when too few exist.",
    note="hook H3 for the actor part", ref="§5 C15"),
  "C16": dict(cat="exploration", technique="runtime monitoring: fold-the-deltas oracle over all snapshot sequences, subscription points and read placements",
-   text="All membership snapshot sequences to length 4 over 3 ids x 2 addresses driven through the real watcher task, every subscription point and slow-reader placement; folded deltas must equal the last snapshot at quiescence.",
-   note="hook H3; synchronisation by awaiting the watcher's output", ref="§5 C16"),
- "C17": dict(cat="exploration", technique="runtime monitoring: map reference model over generated Storage call sequences with close/reopen",
-   text="SQLite (file, memory), LMDB and MemStore driven with generated contract-conforming call sequences (extreme ids, empty/large payloads, tombstone-first, duplicates) against a map model compared after every call, reopen after random prefixes.",
+   text="All membership snapshot sequences to length 4 over 3 ids sharing a pool of 3 addresses (34 states) driven through the real watcher task, every subscription point and slow-reader placement; folded deltas must equal the last snapshot at quiescence. End to end: real nodes join, leave and change address, and the replication layer's addressed peers are compared with the live membership.",
+   note="hook H3; synchronisation by awaiting the watcher's output; three recorded findings (lossy delta channel) keyed by signature", ref="§5 C16"),
+ "C17": dict(cat="exploration", technique='runtime monitoring + sanitizers: map reference model over generated Storage call sequences with close/reopen; ASan and valgrind memcheck over the FFI backends',
+   text="SQLite (file, memory), LMDB and MemStore driven with generated contract-conforming call sequences (extreme ids, empty/large payloads, tombstone-first, duplicates) against a map model compared after every call (full comparison, or list-first / partial reads so that a read cannot mask a later one), reopen after random prefixes. LMDB sequences run in child processes (a reproducible crash is a violation). Thorough: the same workload under AddressSanitizer and under valgrind memcheck (the C libraries ASan does not instrument).",
    note="keyspace-list rule relaxed where the contract is silent", ref="§5 C17"),
  "C18": dict(cat="exploration", technique="runtime monitoring: lost-update checker over concurrent first uses of a keyspace",
-   text="k tasks concurrently get-or-create a fresh keyspace through every entry point and send one acknowledged mutation each; the set a later lookup serializes must contain all k; creation counter observes overlap.",
+   text="k tasks concurrently get-or-create a fresh keyspace through every entry point and send one acknowledged mutation each; the set a later lookup serializes must contain all k, and the keyspace must be advertised by get_keyspace_info with a stamp covering them; creation counter observes overlap.",
    note="hook H6; parallel interleavings sampled", ref="§5 C18"),
  "C19": dict(cat="exploration", technique="runtime monitoring + sanitizers: state-equivalence probe between sender and receiver; Miri on the unchecked decode path",
-   text="Keyspace states of many sizes fetched through ReplicationClient::get_state and compared with the sender's set by listing and will_apply battery; every bit of small replies corrupted must yield Err; Miri runs the whole decode path.",
+   text="Keyspace states of many sizes (built by request histories, shadowed by an independently maintained reference set) fetched through ReplicationClient::get_state and compared with the sender's set and the shadow by listing and will_apply battery; every bit of small replies corrupted must yield Err; large batches in child processes (abort = violation); sample over real TCP; Miri runs the whole decode path, ASan the thorough tier.",
    note="hook H2", ref="§5 C19"),
 }
 
